@@ -205,10 +205,16 @@ func (w *world) run(target int64) error {
 	return fmt.Errorf("height %d not reached within the step bound: %s", target, w.fingerprint())
 }
 
-// dropProposalAt makes every node miss the round-0 proposal of height h (=> a round change at h).
-func dropProposalAt(h int64) func(int, csim.Msg, int) bool {
+// dropProposalAt makes every node miss the round-0 proposal of height h for as long as it is in that round and has
+// not seen a decision (=> a round change at h, unless one validator decides alone).  A node that has moved on, or
+// that waits in the commit step for the decided block, gets the parts from the gossip like everybody else.
+func (w *world) dropProposalAt(h int64) func(int, csim.Msg, int) bool {
 	return func(from int, m csim.Msg, to int) bool {
-		return m.H == h && m.R == 0 && (m.T == "P" || m.T == "B")
+		if !(m.H == h && m.R == 0 && (m.T == "P" || m.T == "B")) {
+			return false
+		}
+		rs := w.s.Nodes[to].CS.GetRoundState()
+		return rs.Height == h && rs.Round == 0 && rs.Step < pbft.RoundStepCommit
 	}
 }
 
